@@ -391,6 +391,92 @@ pub fn failing_writes(prop: &str, out: &mut Outcome) {
     }
 }
 
+/// Large multiplicities: update_many(v, count) with counts around and beyond 2^32 (totals still fit 64 bits).
+pub fn big_counts(prop: &str, out: &mut Outcome) {
+    out.cov.configs.insert("stats/big-counts".into());
+    let tr = tracked();
+    for &v in &[0u64, 1, 5, 63, 1000] {
+        for &count in &[1_000_000_000u64, (1 << 32) - 1, 1 << 32, (1 << 32) + 7, 1 << 40] {
+            let r = std::panic::catch_unwind(|| {
+                let mut s = Stats::default();
+                s.update_many(v, count);
+                (fields(&s), s.total)
+            });
+            out.cov.evaluations += 1;
+            out.cov.nontrivial += 1;
+            match r {
+                Ok((got, total)) => {
+                    let bad = (0..tr.len()).find(|&j| got[j] as u128 != ref_len(tr[j].1, v) * count as u128);
+                    if let Some(j) = bad {
+                        bad_v(out, prop, "update_many", "total", format!("update_many({}, {}): field {} = {}, {} codewords of {} bits need {}", v, count, tr[j].0, got[j], count, ref_len(tr[j].1, v), ref_len(tr[j].1, v) * count as u128));
+                    } else if total != count {
+                        bad_v(out, prop, "update_many", "total", format!("update_many({}, {}): element count {}", v, count, total));
+                    }
+                }
+                Err(p) => bad_v(out, prop, "update_many", "panic", format!("update_many({}, {}) panicked: {}", v, count, crate::util::panic_msg(&p))),
+            }
+        }
+    }
+}
+
+fn bad_v(out: &mut Outcome, prop: &str, op: &str, sym: &str, detail: String) {
+    if out.violations.len() < 40 {
+        out.violations.push(Violation { property: prop.into(), system: "stats".into(), config: "seq".into(), op_class: op.into(), symptom: sym.into(), detail, replay: json!({"kind": "none"}) });
+    }
+}
+
+/// Supplementary FREE-RUNNING pass (real OS threads, no controlled scheduler: a sample, not an
+/// exploration).  loom only sees the synchronisation primitives that were routed to it (the wrapper's
+/// Mutex); shared state kept in anything else would be invisible to it.  Totals are deterministic, so
+/// this pass cannot raise a false alarm; it can only miss.
+pub fn free_running(prop: &str, out: &mut Outcome) {
+    out.cov.configs.insert("stats-wrapper/free-running-threads".into());
+    const THREADS: u64 = 4;
+    const PER: u64 = 60_000;
+    for round in 0..3u64 {
+        let w = std::sync::Arc::new(CodesStatsWrapper::<Codes>::new(Codes::Gamma));
+        let hs: Vec<_> = (0..THREADS)
+            .map(|t| {
+                let w = w.clone();
+                std::thread::spawn(move || {
+                    let mut wr = BufBitWriter::<BE, _>::new(MemWordWriterVec::new(Vec::<u64>::new()));
+                    for i in 0..PER {
+                        // runs of equal values of different lengths, different values per thread
+                        let v = 3 + t * 1000 + ((i / (1 + (t + round) % 3)) % 5);
+                        DynamicCodeWrite::write(&*w, &mut wr, v).unwrap();
+                    }
+                })
+            })
+            .collect();
+        let mut panicked = false;
+        for h in hs {
+            panicked |= h.join().is_err();
+        }
+        out.cov.evaluations += THREADS * PER;
+        if panicked {
+            bad_v(out, prop, "wrapper-update", "panic", "a thread writing through the shared wrapper panicked".into());
+            return;
+        }
+        let st = *w.stats().lock().unwrap();
+        let mut want = Stats::default();
+        for t in 0..THREADS {
+            for i in 0..PER {
+                want.update(3 + t * 1000 + ((i / (1 + (t + round) % 3)) % 5));
+            }
+        }
+        if format!("{:?}", st) != format!("{:?}", want) {
+            let (g, wv) = (fields(&st), fields(&want));
+            let tr = tracked();
+            let j = (0..g.len()).find(|&j| g[j] != wv[j]);
+            bad_v(out, prop, "wrapper-update", "total", format!("{} real threads x {} writes through one wrapper (free-running): {}", THREADS, PER, match j {
+                Some(j) => format!("field {} = {}, the values written need {}", tr[j].0, g[j], wv[j]),
+                None => format!("element count {} instead of {}", st.total, want.total),
+            }));
+            return;
+        }
+    }
+}
+
 pub fn c15(ctx: &Ctx) -> (CheckMeta, Outcome) {
     // cost table: reference length, cross-checked against the real writer where the codeword is short
     let tr = tracked();
@@ -411,6 +497,8 @@ pub fn c15(ctx: &Ctx) -> (CheckMeta, Outcome) {
     if crate::pool::is_primary() {
         param_sweeps("C15", &mut pre);
         failing_writes("C15", &mut pre);
+        big_counts("C15", &mut pre);
+        free_running("C15", &mut pre);
     }
     // best_code over the whole field space: for EVERY tracked field, statistics in which that field
     // is the strict minimum (built through the public fields) must report the code the field denotes
@@ -604,7 +692,7 @@ pub fn c15(ctx: &Ctx) -> (CheckMeta, Outcome) {
     let meta = CheckMeta {
         property: "C15".into(),
         level: "model_checking".into(),
-        rule: "concurrent half: loom (the wrapper's Mutex is loom's under --cfg dsi_bitstream_verif) explores every interleaving, within the preemption bound stated per model, of 2-3 threads performing 1-3 reads/writes through ONE shared CodesStatsWrapper; after join the statistics must equal the sequential result (states = executions explored). Sequential half: eight instantiations of the generic statistics types (default, unequal family sizes, zero-sized families, larger ones) with the same oracle through update/update_many/merge/best_code and the wrapper on writes and reads; writes that FAIL (full fixed slice) through the wrapper must not be counted; a single-value sweep (every value below 4096 and the boundary grids of all 55 tracked codes, incl. multiples of every Golomb modulus around every power of two: each field grows by exactly the reference length); ALL 1001 multisets of size <= 4 over the 10-value alphabet {0,1,63,64,1023,1024,65535,65537,2^32,2^40+1}: every public total = sum of reference codeword lengths (cross-checked against the real writer's actual sizes where the codeword is <= 4096 bits) under the code/parameter the field denotes; total count; best_code() = argmin with that cost and re-encoding with the returned code costs exactly that; for EVERY one of the 55 tracked fields, statistics built through the public fields in which that field is the strict minimum must report the code that field denotes; update_many with multiplicities; every split into <= 3 parts merged by add, +=, +, sum and a reordered +; statistics gathered by CodesStatsWrapper on writes and on reads (dynamic and static dispatch) for three wrapped codes".into(),
+        rule: "concurrent half: loom (the wrapper's Mutex is loom's under --cfg dsi_bitstream_verif) explores every interleaving, within the preemption bound stated per model, of 2-3 threads performing 1-3 reads/writes through ONE shared CodesStatsWrapper; after join the statistics must equal the sequential result (states = executions explored). Sequential half: eight instantiations of the generic statistics types (default, unequal family sizes, zero-sized families, larger ones) with the same oracle through update/update_many/merge/best_code and the wrapper on writes and reads; writes that FAIL (full fixed slice) through the wrapper must not be counted; update_many with multiplicities 10^9, 2^32-1, 2^32, 2^32+7, 2^40; a supplementary FREE-RUNNING pass (4 real threads x 60 000 writes x 3 rounds through one wrapper; a sample, not an exploration - it exists because loom only sees the primitives routed to it); a single-value sweep (every value below 4096 and the boundary grids of all 55 tracked codes, incl. multiples of every Golomb modulus around every power of two: each field grows by exactly the reference length); ALL 1001 multisets of size <= 4 over the 10-value alphabet {0,1,63,64,1023,1024,65535,65537,2^32,2^40+1}: every public total = sum of reference codeword lengths (cross-checked against the real writer's actual sizes where the codeword is <= 4096 bits) under the code/parameter the field denotes; total count; best_code() = argmin with that cost and re-encoding with the returned code costs exactly that; for EVERY one of the 55 tracked fields, statistics built through the public fields in which that field is the strict minimum must report the code that field denotes; update_many with multiplicities; every split into <= 3 parts merged by add, +=, +, sum and a reordered +; statistics gathered by CodesStatsWrapper on writes and on reads (dynamic and static dispatch) for three wrapped codes".into(),
         assumptions: vec!["loom models sequentially consistent executions plus its C11 memory model for the Mutex; preemption bound 3 (unbounded for the smallest models)".into()],
     };
     (meta, out)
